@@ -40,7 +40,8 @@ def forall(lo, hi, f):
     return all(f(i) for i in range(lo, hi))
 
 
-def exists(lo, hi, f):
+def exists(lo, hi, f, witness=None):
+    # the witness is a proof hint over ghost state; it does not change the meaning
     return any(f(i) for i in range(lo, hi))
 
 
@@ -89,7 +90,7 @@ def spec_namespace(reg):
     ns = {"implies": implies, "forall": forall, "exists": exists, "re_in": re_in, "str_to_int": int, "idna_ok": idna_ok, "idna": idna,
           "int_max_digits": lambda: __import__("sys").get_int_max_str_digits()}
     ns.update(getattr(reg, "native_specs", {}))
-    for name, (sig, body) in reg.spec_src.items():
+    for name, (sig, body) in list(getattr(reg, "defn_src", {}).items()) + list(reg.spec_src.items()):
         params = sig[sig.index("(") + 1: sig.rindex(")")]
         ns[name] = eval(f"lambda {params}: ({body})", ns)  # noqa: S307 - our own contract text
     return ns
